@@ -85,7 +85,7 @@ Fixpoint download_loop (fuel : nat) (remaining : N) (w : wscript) (acc : list N)
       if st_chunkSize <? n then (Panic 21, acc)          (* buf[:n] *)
       else
         let (okw, w') := wnext w in
-        if okw then download_loop f ((remaining + 2 ^ 32 - n) mod 2 ^ 32) w' (acc ++ [n])
+        if okw then download_loop f ((remaining + 2 ^ 32 - n) mod 2 ^ 32) w' (n :: acc)
         else (Err EOther, acc)
   end.
 
@@ -95,7 +95,7 @@ Definition handle_download (s : script) (w : wscript) : srun :=
       let (ok1, w1) := wnext w in                       (* writeDownloadResponse(true, "OK") *)
       if ok1 then
         let r := download_loop (N.to_nat (l / st_chunkSize + 1)) l w1 [5] in
-        mkRun (fst r) (snd r) s1 0
+        mkRun (fst r) (rev (snd r)) s1 0      (* acc is kept newest-first *)
       else mkRun (Err EOther) [] s1 0
   | (Err e, s1) => mkRun (Err e) [] s1 0
   | (Panic p, s1) => mkRun (Panic p) [] s1 0
